@@ -85,6 +85,10 @@ def map_rules(fx, rep, prop_rule_prefix=''):
 
 def rules(fx, rep):
     map_rules(fx, rep)
+    # the '+' of the composition: exceptional-case skeleton of the target curve's group law (shared with C01),
+    # in particular the representation-independent equal-point test that 'distinct inputs, same image' relies on
+    from props import c01
+    c01.rule_projective_ops(fx, rep)
 
 
 def main(tier, t0):
